@@ -343,6 +343,7 @@ type World struct {
 // Options of Build.
 type BuildOpts struct {
 	Check    bool
+	Compiled bool                 // router.WithRouteCompilation(true): static routes are served from the compiled table
 	Defaults bool                 // app world: keep the default middleware (recovery)
 	Pre      []router.HandlerFunc // router world: installed with Use before the script runs (C10: recovery)
 }
@@ -366,7 +367,7 @@ func Build(script []Op, bo BuildOpts) (w *World, err error) {
 			err = fmt.Errorf("configuration panicked: %v", p)
 		}
 	}()
-	ropts := []router.Option{router.WithCancellationCheck(bo.Check),
+	ropts := []router.Option{router.WithCancellationCheck(bo.Check), router.WithRouteCompilation(bo.Compiled),
 		router.WithVersioning(version.WithHeaderDetection(VersionHeader), version.WithDefault("v0"))}
 	w = &World{}
 	if usesApp(script) {
@@ -395,7 +396,7 @@ func Build(script []Op, bo BuildOpts) (w *World, err error) {
 	for _, o := range script {
 		switch o.K {
 		case "NR":
-			w.Routers = append(w.Routers, router.MustNew(router.WithCancellationCheck(bo.Check)))
+			w.Routers = append(w.Routers, router.MustNew(router.WithCancellationCheck(bo.Check), router.WithRouteCompilation(bo.Compiled)))
 		case "U":
 			w.Routers[o.A].Use(rhs(o.Hs)...)
 		case "G":
